@@ -1,6 +1,7 @@
 (** C05 property theorems (proofs in Proofs_C05.v; the refinement of the layout-level models to
     these specifications is in Proofs_AtAxis.v when present). *)
 From AwkV Require Import Layout Ops_Struct Ops_Flatten Ops_Getitem Proofs_C05.
+From AwkV Require Import Valid Types AtAxis Carry Proofs_Lists Proofs_ToList Proofs_Carry Proofs_AtAxis Proofs_AtAxisOps.
 
 (* unflatten(flatten(x), num(x)) reproduces x when no list is missing *)
 Theorem unflatten_flatten : forall (ls : list (list value)), regroup (map zlen ls) (concat ls) = ls.
@@ -29,3 +30,23 @@ Theorem offsets_are_running_sums : forall s lens,
   length (offsets_from s lens) = S (length lens) /\ last (offsets_from s lens) 0 = s + sumZ lens.
 Proof. exact (fun s lens => conj (offsets_from_length s lens) (offsets_from_last s lens)). Qed.
 Print Assumptions offsets_are_running_sums.
+
+(* ---- refinement: the layout-level models compute exactly the value-level specification,
+        for every valid layout of the fragment [frag] (every node class except UnionArray;
+        strings and n-d NumpyArray included), every axis, with equal error status ---- *)
+Theorem num_refines_spec : forall c axis vs,
+  Valid None c -> frag c = true -> to_list c = Ok vs ->
+  obs (num_model axis c) = num_spec axis (type_of c) vs.
+Proof. exact num_refines. Qed.
+Print Assumptions num_refines_spec.
+
+Theorem local_index_refines_spec : forall c axis vs,
+  Valid None c -> frag c = true -> to_list c = Ok vs ->
+  obs (localindex_model axis c) = localindex_spec axis (type_of c) vs.
+Proof. exact localindex_refines. Qed.
+Print Assumptions local_index_refines_spec.
+
+(* the semantics is length-faithful: a layout's value has exactly the layout's length *)
+Theorem value_has_layout_length : forall c p vs, Valid p c -> to_list c = Ok vs -> zlen vs = clen c.
+Proof. exact to_list_length. Qed.
+Print Assumptions value_has_layout_length.
